@@ -539,6 +539,8 @@ macro_rules! gen_c12dec {
             let filb = file.serialize().to_vec();
             let pkb = setup.keypair().public().serialize().to_vec();
             let skb = { use opaque_ke::keypair::SecretKey as _; setup.keypair().private().serialize().to_vec() };
+            let skb2 = skb.clone(); let set2 = set.clone();
+            let reg_req = RegistrationRequest::<$cs>::deserialize(&req)?; let log_req = CredentialRequest::<$cs>::deserialize(&creq)?;
             let decs: Vec<(&str, Box<dyn Fn(&[u8]) -> bool>, Vec<u8>)> = vec![
                 ("RegistrationRequest", Box::new(|b| RegistrationRequest::<$cs>::deserialize(b).is_ok()), req),
                 ("RegistrationResponse", Box::new(|b| RegistrationResponse::<$cs>::deserialize(b).is_ok()), resp),
@@ -553,6 +555,15 @@ macro_rules! gen_c12dec {
                 ("ServerLogin", Box::new(|b| ServerLogin::<$cs>::deserialize(b).is_ok()), slog),
                 ("PublicKey", Box::new(|b| opaque_ke::keypair::PublicKey::<KG>::deserialize(b).is_ok()), pkb),
                 ("KeyPair::from_private_key_slice", Box::new(|b| opaque_ke::keypair::KeyPair::<KG>::from_private_key_slice(b).is_ok()), skb),
+                // ... and USE what was accepted: a decoded key pair is serialized, a decoded setup answers a registration and a login
+                ("KeyPair::from_private_key_slice, then public().serialize()", Box::new(|b| { use opaque_ke::keypair::SecretKey as _;
+                    opaque_ke::keypair::KeyPair::<KG>::from_private_key_slice(b).map(|kp| { let _ = kp.public().serialize(); let _ = kp.private().serialize(); }).is_ok() }), skb2),
+                ("ServerSetup::deserialize, then registration and login", Box::new(move |b| match ServerSetup::<$cs>::deserialize(b) {
+                    Ok(s) => { let mut r = StdRng::seed_from_u64(12800);
+                        let _ = ServerRegistration::<$cs>::start(&s, reg_req.clone(), b"id").map(|x| x.message.serialize());
+                        let _ = ServerLogin::<$cs>::start(&mut r, &s, None, log_req.clone(), b"id", ServerLoginStartParameters::default()).map(|x| x.message.serialize());
+                        let _ = s.keypair().public().serialize(); true }
+                    Err(_) => false }), set2),
             ];
             for (name, dec, good) in decs.iter() {
                 for len in 0..=good.len() + 2 {
@@ -1179,6 +1190,17 @@ fn oracle_twin(acc: &mut Acc) {
 }
 
 fn run(gen: &str) -> Value {
+    // a panic of the library on the property's own inputs (outside the places where a generator expects and catches one) is a finding by itself
+    let g = gen.to_string();
+    match std::panic::catch_unwind(move || run_inner(&g)) {
+        Ok(v) => v,
+        Err(e) => {
+            let msg = e.downcast_ref::<String>().cloned().or_else(|| e.downcast_ref::<&str>().map(|s| s.to_string())).unwrap_or_else(|| "panic".into());
+            json!({"generator": gen, "found": true, "witness": [{"suite": "?", "what": "PANIC in the library while the generator ran its inputs (an error value or a result was expected)", "detail": {"panic": msg}}], "tried": 0, "suites": 20})
+        }
+    }
+}
+fn run_inner(gen: &str) -> Value {
     let mut acc = Acc { tried: 0, found: vec![] };
     match gen {
         "c01" => { all_suites!(gen_c01, &mut acc); honest_with_ksf(&mut acc); }
@@ -1397,6 +1419,28 @@ macro_rules! gen_c15 {
             })();
             match r { Ok(ok) => if ok != *must { acc.hit(stringify!($cs), "KSF selection / binding", json!({"case": what, "login_succeeded": ok, "expected": must})); },
                       Err(e) => acc.hit(stringify!($cs), "run failed", json!({"case": what, "error": format!("{:?}", e)})) }
+        }
+        // an explicitly passed instance that fails is an error too (no silent fall-back to the default instance)
+        for in_login in [false, true] {
+            acc.tried += 1;
+            let bad = Toy(0x77);
+            let r = (|| -> Result<bool, ProtocolError> {
+                let mut rng = StdRng::seed_from_u64(15700);
+                let setup = ServerSetup::<$cs>::new(&mut rng);
+                let c = ClientRegistration::<$cs>::start(&mut rng, b"pw")?;
+                let s = ServerRegistration::<$cs>::start(&setup, c.message, b"id")?;
+                CALLS.with(|c| c.set(0)); FAIL_AT.with(|f| f.set(if in_login { 0 } else { 1 }));
+                let fr = c.state.finish(&mut rng, b"pw", s.message, ClientRegistrationFinishParameters::new(Identifiers::default(), if in_login { None } else { Some(&bad) }));
+                if !in_login { return Ok(fr.is_err()); }
+                let file = ServerRegistration::<$cs>::finish(fr?.message);
+                let cl = ClientLogin::<$cs>::start(&mut rng, b"pw")?;
+                let sl = ServerLogin::<$cs>::start(&mut rng, &setup, Some(file), cl.message, b"id", ServerLoginStartParameters::default())?;
+                CALLS.with(|c| c.set(0)); FAIL_AT.with(|f| f.set(1));
+                Ok(cl.state.finish(b"pw", sl.message, ClientLoginFinishParameters::new(None, Identifiers::default(), Some(&bad))).is_err())
+            })();
+            FAIL_AT.with(|f| f.set(0));
+            match r { Ok(true) => {}, Ok(false) => acc.hit(stringify!($cs), "an explicitly passed key-stretching instance failed, yet the finish step returned Ok (silent fall-back)", json!({"in_login": in_login})),
+                      Err(e) => acc.hit(stringify!($cs), "run failed", json!({"error": format!("{:?}", e)})) }
         }
         // a failing KSF is returned as an error (registration finish and login finish)
         for fail_in_login in [false, true] {
